@@ -27,9 +27,10 @@ func (m *PanMap) Inspect() string {
 	var out bytes.Buffer
 	pairs := []Pair{}
 
-	// NOTE: refer map because range cannot treat map pointer
-	for _, p := range *m.Pairs {
-		pairs = append(pairs, p)
+	// NOTE: refer HashKeys to fix order of pairs
+	// (otherwise keys printed in the same form are shown in random order)
+	for _, h := range *m.HashKeys {
+		pairs = append(pairs, (*m.Pairs)[h])
 	}
 
 	out.WriteString("%{")
@@ -56,9 +57,10 @@ func (m *PanMap) Repr() string {
 	var out bytes.Buffer
 	pairs := []Pair{}
 
-	// NOTE: refer map because range cannot treat map pointer
-	for _, p := range *m.Pairs {
-		pairs = append(pairs, p)
+	// NOTE: refer HashKeys to fix order of pairs
+	// (otherwise keys printed in the same form are shown in random order)
+	for _, h := range *m.HashKeys {
+		pairs = append(pairs, (*m.Pairs)[h])
 	}
 
 	out.WriteString("%{")
